@@ -26,13 +26,20 @@ EXTRA = [
     # maps built while rendering, with keys of several kinds, printed whole: the text must not depend on the map instance
     ("mixed-key-map", [["m.html", "{% set m = {true: x, 1: x, 0: xs, false: 2, 'k': x, 3: 3, 'a': 4, 2: 5} %}{{ m }}|{% set n = {...m, 7: x, 'z': 1} %}{{ n }}|{{ [m, n] }}"]],
      {"op": "render", "name": "m.html"}),
+    # maps built while rendering and then ITERATED (for, keys, values, pairs, a group_by result): the order must not depend
+    # on the map instance -- every render builds a new one
+    ("map-iterated", [["mi.html", "{% set m = {'a': x, 'b': x, 'c': 1, 'd': 2, 'e': 3, 'f': 4, 'g': 5, 'h': 6} %}{% for k, v in m %}{{ k }}={{ v }};{% endfor %}"
+                                  "|{{ m | keys | join(sep=',') }}|{{ m | values | join(sep=',') }}|{% for p in m | pairs %}{{ p[0] }}{% endfor %}"
+                                  "|{% for k, v in {...m, 'i': x} %}{{ k }}{% endfor %}|{% for k, g in ps | group_by(attribute='g') %}{{ k }}{% endfor %}"
+                                  "|{{ [k for k, v in m] | join }}"]],
+     {"op": "render", "name": "mi.html"}),
     # the same name in the global context and in the render context (the render context wins, through every channel)
     ("global-shadowed", [["g.html", "{{ x }}|{{ onlyg }}|{% include 'gi.html' %}{% block b %}[{{ x }}{{ onlyg }}]{% endblock %}"], ["gi.html", "I{{ x }}{{ onlyg }}"]], {"op": "render", "name": "g.html"}),
     ("global-shadowed-block", [["g.html", "{% block b %}[{{ x }}{{ onlyg }}{% include 'gi.html' %}]{% endblock %}"], ["gi.html", "I{{ x }}{{ onlyg }}"]], {"op": "render_block", "name": "g.html", "block": "b"}),
     ("global-shadowed-str", [["gi.html", "I{{ x }}{{ onlyg }}"]], {"op": "render_str", "src": "{{ x }}{{ onlyg }}{% include 'gi.html' %}", "auto": True}),
     ("capture", [["p.html", "{% set v %}a{{ x }}b{% endset %}{{ v }}{{ v | safe }}{% for c in x %}{{ c }}{% endfor %}"]], {"op": "render", "name": "p.html"}),
 ]
-ECTX = {"x": "<&é\">", "xs": [1, 2, 3], "title": "T&t"}
+ECTX = {"x": "<&é\">", "xs": [1, 2, 3], "title": "T&t", "ps": [{"g": g, "n": i} for i, g in enumerate("qrstuvwq")]}
 
 
 def run(tier):
@@ -88,6 +95,29 @@ def run(tier):
                 to = {"fail_call": k} if m == "call" else {"budget": k} if m == "budget" else {"chunk": k}
                 fjobs.append({"cfg": cfg, "ctx": ctx, "steps": [{"op": "add", "tpls": tpls}, dict(op, to=to)]})
                 fmeta.append((src, op["op"], m, k, full, sizes))
+    # the two channels agree on requests that FAIL as well: an unknown template / block / component, a block of a template
+    # that only inherits it from nowhere, a render error before and after some output
+    BT = [["b.html", "A{% block c %}<{{ x }}>{% endblock %}Z"], ["c.html", "{% extends 'b.html' %}{% block c %}[{{ super() }}]{% endblock %}"],
+          ["k.html", "{% component Card(title) %}<h1>{{ title }}</h1>{% endcomponent Card %}"], ["e1.html", "{{ nope }}abc"], ["e2.html", "abc{{ nope }}"]]
+    FREQ = [{"op": "render", "name": "nope.html"}, {"op": "render_block", "name": "c.html", "block": "nope"}, {"op": "render_block", "name": "b.html", "block": ""},
+            {"op": "render_block", "name": "nope.html", "block": "c"}, {"op": "render_block", "name": "k.html", "block": "c"},
+            {"op": "render_component", "name": "Nope", "auto": True, "ctx": {}}, {"op": "render_component", "name": "Card", "auto": True, "ctx": {}},
+            {"op": "render_component", "name": "Card", "auto": True, "ctx": {"title": 1, "zz": 2}}, {"op": "render", "name": "e1.html"}, {"op": "render", "name": "e2.html"},
+            {"op": "render_str", "src": "{% extends 'b.html' %}", "auto": True}, {"op": "render_str", "src": "ab{{ 1 / 0 }}", "auto": True},
+            {"op": "render_block", "name": "c.html", "block": "c"}]
+    qjobs = [{"cfg": {"autoescape": [".html"]}, "ctx": ECTX, "steps": [{"op": "add", "tpls": BT}, dict(q), dict(q, to={})]} for q in FREQ]
+    for q, rr, job in zip(FREQ, vp.run_jobs(qjobs, tag="c18-freq"), qjobs):
+        C.count()
+        C.nontrivial(["failing-request", json.dumps(q, sort_keys=True)])
+        a, b = rr[1], rr[2]
+        key = {"kind": "channels-on-failure", "op": q["op"], "name": q.get("name", q.get("src")), "block": q.get("block")}
+        if any(x.get("panic") or x.get("abort") for x in rr):
+            C.violation(dict(key, kind="panic"), "panic on %s" % q, {"job": job, "result": rr})
+        elif bool(a.get("ok")) != bool(b.get("ok")) or (a.get("ok") and a.get("out") != b.get("accepted")):
+            C.violation(key, "%s: the String channel gives %s, the writer channel %s" % (q, repr(a.get("out")) if a.get("ok") else "an error (%s)" % (a.get("msg") or a.get("disp", ""))[:80],
+                                                                                   ("Ok after writing %r" % b.get("accepted")) if b.get("ok") else "an error"), {"job": job, "result": rr})
+        elif not a.get("ok") and a.get("kind") != b.get("kind"):
+            C.violation(dict(key, kind="channels-error-kind"), "%s: the String channel fails with %s, the writer channel with %s" % (q, a.get("kind"), b.get("kind")), {"job": job, "result": rr})
     # purity across renders in one process/thread: a render that FAILS half way (inside a component body, a capture, an
     # include, a block) must leave nothing behind for the next render, of the same or of another instance
     FAILING = [("component", [["f.html", "{% component boom(x) %}<li>{{ x }} costs {{ nope }}</li>{% endcomponent boom %}{{<boom x='ink' />}}"]], "f.html"),
